@@ -95,7 +95,11 @@ func buildFields(rt reflect.Type, u byte, omitEmpty bool) (fa []*finfo) {
 	return shadow(fa)
 }
 
-func buildTagFields(rt reflect.Type, nested, omitEmpty bool) (fa []*finfo) {
+func buildTagFields(rt reflect.Type, nested, omitEmpty bool, path ...reflect.Type) (fa []*finfo) {
+	if onPath(rt, path) {
+		return
+	}
+	path = append(path, rt)
 	for i := rt.NumField() - 1; 0 <= i; i-- {
 		f := rt.Field(i)
 		name := []byte(f.Name)
@@ -108,14 +112,14 @@ func buildTagFields(rt reflect.Type, nested, omitEmpty bool) (fa []*finfo) {
 		}
 		if f.Anonymous && nested {
 			if f.Type.Kind() == reflect.Ptr {
-				for _, fi := range buildTagFields(f.Type.Elem(), nested, omitEmpty) {
+				for _, fi := range buildTagFields(f.Type.Elem(), nested, omitEmpty, path...) {
 					fi.index = append([]int{i}, fi.index...)
 					fi.ivalue = skipNilEmbedded(fi.ivalue)
 					fi.value = fi.ivalue
 					fa = append(fa, fi)
 				}
 			} else {
-				for _, fi := range buildTagFields(f.Type, nested, omitEmpty) {
+				for _, fi := range buildTagFields(f.Type, nested, omitEmpty, path...) {
 					fi.index = append([]int{i}, fi.index...)
 					fi.offset += f.Offset
 					fa = append(fa, fi)
@@ -152,7 +156,11 @@ func buildTagFields(rt reflect.Type, nested, omitEmpty bool) (fa []*finfo) {
 	return
 }
 
-func buildExactFields(rt reflect.Type, nested, omitEmpty bool) (fa []*finfo) {
+func buildExactFields(rt reflect.Type, nested, omitEmpty bool, path ...reflect.Type) (fa []*finfo) {
+	if onPath(rt, path) {
+		return
+	}
+	path = append(path, rt)
 	for i := rt.NumField() - 1; 0 <= i; i-- {
 		f := rt.Field(i)
 		name := []byte(f.Name)
@@ -162,14 +170,14 @@ func buildExactFields(rt reflect.Type, nested, omitEmpty bool) (fa []*finfo) {
 		switch {
 		case f.Anonymous && nested:
 			if f.Type.Kind() == reflect.Ptr {
-				for _, fi := range buildExactFields(f.Type.Elem(), nested, omitEmpty) {
+				for _, fi := range buildExactFields(f.Type.Elem(), nested, omitEmpty, path...) {
 					fi.index = append([]int{i}, fi.index...)
 					fi.ivalue = skipNilEmbedded(fi.ivalue)
 					fi.value = fi.ivalue
 					fa = append(fa, fi)
 				}
 			} else {
-				for _, fi := range buildExactFields(f.Type, nested, omitEmpty) {
+				for _, fi := range buildExactFields(f.Type, nested, omitEmpty, path...) {
 					fi.index = append([]int{i}, fi.index...)
 					fi.offset += f.Offset
 					fa = append(fa, fi)
@@ -184,7 +192,11 @@ func buildExactFields(rt reflect.Type, nested, omitEmpty bool) (fa []*finfo) {
 	return
 }
 
-func buildLowFields(rt reflect.Type, nested, omitEmpty bool) (fa []*finfo) {
+func buildLowFields(rt reflect.Type, nested, omitEmpty bool, path ...reflect.Type) (fa []*finfo) {
+	if onPath(rt, path) {
+		return
+	}
+	path = append(path, rt)
 	for i := rt.NumField() - 1; 0 <= i; i-- {
 		f := rt.Field(i)
 		name := []byte(f.Name)
@@ -193,14 +205,14 @@ func buildLowFields(rt reflect.Type, nested, omitEmpty bool) (fa []*finfo) {
 		}
 		if f.Anonymous && nested {
 			if f.Type.Kind() == reflect.Ptr {
-				for _, fi := range buildLowFields(f.Type.Elem(), nested, omitEmpty) {
+				for _, fi := range buildLowFields(f.Type.Elem(), nested, omitEmpty, path...) {
 					fi.index = append([]int{i}, fi.index...)
 					fi.ivalue = skipNilEmbedded(fi.ivalue)
 					fi.value = fi.ivalue
 					fa = append(fa, fi)
 				}
 			} else {
-				for _, fi := range buildLowFields(f.Type, nested, omitEmpty) {
+				for _, fi := range buildLowFields(f.Type, nested, omitEmpty, path...) {
 					fi.index = append([]int{i}, fi.index...)
 					fi.offset += f.Offset
 					fa = append(fa, fi)
@@ -245,4 +257,15 @@ func shadow(fa []*finfo) []*finfo {
 		}
 	}
 	return out
+}
+
+// onPath reports whether rt is one of the types whose fields are being collected right now: a struct that embeds a
+// pointer to itself (directly or through other structs) is entered once.
+func onPath(rt reflect.Type, path []reflect.Type) bool {
+	for _, t := range path {
+		if t == rt {
+			return true
+		}
+	}
+	return false
 }
